@@ -562,6 +562,27 @@ def run(c, binary):
                       "implementation": blocks[i][j], "expected": model[gi][j],
                       "theorems_not_transferring": ["skip_invariants_reachable (level = max(1, tallest tower), chains = nodes higher than i)"]},
                      found_input=False)
+    # ---- layer B: the statement-by-statement pointer model on the same histories (short ones)
+    psel = [gi for gi, i in enumerate(good) if len(blocks[i]) <= 80]
+    ptr = parse_blocks(c.run_model(["skip", "ptr"], "\n".join(annotated[good[gi]] for gi in psel) + "\n"))
+    pagree = pops = 0
+    pbad = None
+    for k, gi in enumerate(psel):
+        b = blocks[good[gi]]
+        pb = ptr[k] if k < len(ptr) else []
+        for j in range(len(b)):
+            pops += 1
+            if j < len(pb) and pb[j] == b[j]:
+                pagree += 1
+            elif pbad is None:
+                pbad = (gi, j, pb[j] if j < len(pb) else "<missing>")
+    c.cov["skip_ptr_model_ops_compared"] = pops
+    c.cov["skip_ptr_model_ops_agree"] = pagree
+    if pbad is not None and not bad_api and not bad_tower:
+        gi, j, got = pbad
+        c.report("C05:skip:ptr-model", "skip list: the pointer model (layer B) differs from the implementation's dump although the heights model agrees",
+                 {"kind": "correspondence", "model": "SkipModel pointer model (Section Ptr)", "history": hists[good[gi]], "first_diverging_op": j,
+                  "implementation": blocks[good[gi]][j], "expected": got}, found_input=False)
     # ---- vm_compute cross-check of the extraction
     short = [gi for gi, i in enumerate(good) if 0 < len(blocks[i]) <= 30]
     r2 = random.Random(c.seed + 11)
@@ -583,4 +604,5 @@ RULE = ("skip list: histories = (comparator asc/desc/k mod 3/k div 2, seed of x/
         "non-trivial = history deletes a present element and inserts a duplicate key")
 ASSUMPTIONS = ["skip list: golang.org/x/exp/rand only contributes the tower height of each Insert (read back from the dump and given to the model)"]
 TRUSTED = ["skip list: ocaml/drv_skip.ml, harness/c05skip, hooks/internal/list/x_verif.go + hooks/list/x_skip_verif.go (read-only dump, pass-throughs), checks/c05_skip.py",
-           "skip list: the tie between the real pointers and the heights model is the per-operation comparison of all 32 chains (checked every run, not a theorem)"]
+           "skip list: the tie between the real pointers and the heights model is the per-operation comparison of all 32 chains (checked every run, not a theorem); "
+           "a statement-by-statement pointer model is compared too (every run) and proved equal to the heights model only up to 5 mutating operations (ptr_matches_heights_bounded)"]
